@@ -23,9 +23,10 @@ def main():
     ok = ck.lean_gate(['BctVerif.Props.C03'], extra_modules=['BctVerif.Model.Dist'])
     if ck.tier == 'thorough' and ok:
         ck.leanchecker(['BctVerif.Props.C03', 'BctVerif.Model.Dist'])
-    if ck.replay:
-        cases = [json.load(open(ck.replay))['case']['case']]
-    else:
+    rp = json.load(open(ck.replay)) if ck.replay else None
+    if rp is not None and isinstance(rp.get('case'), dict) and 'case' in rp['case']:
+        cases = [rp['case']['case']]
+    else:      # no replay, or a `no-failing-input-found` replay (broken theorem / correspondence): run the whole tier
         cases = dc.gen_dist_cases(ck.rs, ck.tier)
     results = pmap(dc.run_case, cases)
     dc.absorb(ck, cases, results, FUNCS)
